@@ -551,7 +551,7 @@ Definition pred_c19 (g : ghost) (w : world) (a : action) (O : oracle) (w' : worl
              | Some u' =>
                  (if (length post =? S (length pre))%nat then [] else [1191]) ++
                  (if beqb (u_password u') (px pw) then [] else [1192]) ++
-                 (if forallb (fun kv => bmem (fst kv) [f_email; f_password]) (u_arb u') then [] else [1193]) ++
+                 (if forallb (fun kv => bmem (fst kv) [f_email]) (u_arb u') then [] else [1193]) ++
                  (if has_mod cfg MConfirm
                   then (if negb (u_confirmed u') && obytes_eq before after then [] else [1194])
                   else (if obytes_eq after (Some pid) then [] else [1195]))
@@ -608,6 +608,121 @@ Definition pred_c09 (g : ghost) (w : world) (a : action) (O : oracle) (w' : worl
             | None => [1096] end
           else []
       | _ => []
+      end
+  | _ => []
+  end.
+
+(* ---- C18: backend failures ------------------------------------------------------------------------- *)
+Definition consuming_call (k : callkind) : bool :=
+  match k with KSave | KUseRm | KCreate | KSaveOAuth2 | KAddRm | KDelRm => true | _ => false end.
+Definition faulted_kinds (O : oracle) (i : iobs) : list callkind :=
+  flat_map (fun f => match nth_error (io_calls i) (fst f) with Some k => [k] | None => [] end) (o_faults O).
+Definition ok_paths : list bytes :=
+  [p_login_ok; p_confirm_ok; p_logout_ok; p_oauth_ok; p_recover_ok; p_register_ok].
+Definition success_page (p : bytes) : bool :=
+  bmem p [bs "totp2fa_confirm_success"; bs "totp2fa_remove_success"; bs "sms2fa_confirm_success"; bs "sms2fa_remove_success"].
+(* the response tells the client that the operation succeeded *)
+Definition reports_success (i : iobs) : bool :=
+  ((io_status i =? 302) && bmem (io_loc i) ok_paths) ||
+  ((io_status i =? 307) && match dlookup (bs "status") (io_data i), dlookup (bs "location") (io_data i) with
+                           | Some (DStr s), Some (DStr l) => beqb s (bs "success") && bmem l ok_paths
+                           | _, _ => false end) ||
+  success_page (io_page i) ||
+  match dlookup (bs "otp") (io_data i), dlookup (bs "recovery_codes") (io_data i) with
+  | None, None => false | _, _ => true end.
+
+Definition pred_c18 (g : ghost) (w : world) (a : action) (O : oracle) (w' : world) (i : iobs) : list Z :=
+  (if io_panic i then [118] else []) ++
+  match o_faults O with
+  | [] => []
+  | _ =>
+      let fk := faulted_kinds O i in
+      match a with
+      | AReq r =>
+          (* a failed write is never reported as success *)
+          (if existsb consuming_call fk && reports_success i then [1181] else []) ++
+          (* no session on the strength of a one-time credential whose consumption failed: the call
+             that removes the OTP / recovery code / remember token is the first Save (resp. the
+             UseRememberToken) of the request *)
+          (let consume_kind := match q_route r with
+                               | ROtpLogin => Some KSave
+                               | RTotpValidate | RSmsValidate =>
+                                   if bempty (aget f_recovery_code (values_of r)) then None else Some KSave
+                               | RApp _ _ _ _ _ true _ => Some KUseRm
+                               | _ => None end in
+           match consume_kind with
+           | None => []
+           | Some ck =>
+               let idx := (fix first (l : list callkind) (n : nat) : option nat :=
+                             match l with [] => None | k :: t => if callkind_eqb k ck then Some n else first t (S n) end)
+                          (io_calls i) 0%nat in
+               match idx with
+               | Some n =>
+                   if existsb (fun f => Nat.eqb (fst f) n) (o_faults O) &&
+                      negb (obytes_eq (uid_in (sess_of w (q_browser r))) (uid_in (io_sess i))) &&
+                      match uid_in (io_sess i) with Some _ => true | None => false end then [1182] else []
+               | None => []
+               end
+           end)
+      | _ =>
+          (if existsb consuming_call fk && negb (io_err i) then [1183] else [])
+      end
+  end.
+
+(* ---- C08: the access middleware ---------------------------------------------------------------------- *)
+Inductive loadres := LOk | LNone | LErr.
+Definition loadres_eqb (a b : loadres) : bool :=
+  match a, b with LOk, LOk | LNone, LNone | LErr, LErr => true | _, _ => false end.
+
+(* (full, 2fa, refusal, mount-pathed, page the wrapped handler renders) for routes whose first
+   middleware is the access middleware *)
+Definition c08_route (r : request) : option (bool * bool * failresp * bool * bytes) :=
+  match q_route r, q_meth r with
+  | RApp full tf fr false false false false, _ => Some (full, tf, fr, false, bs "app")
+  | ROtpAdd, GET => if has_mod cfg MOtp then Some (false, false, c_unauthed cfg, true, bs "otpadd") else None
+  | RTotpRemove, GET => if c_totp cfg then Some (true, false, c_unauthed cfg, true, bs "totp2fa_remove") else None
+  | _, _ => None
+  end.
+
+Definition pred_c08 (g : ghost) (w : world) (a : action) (O : oracle) (w' : world) (i : iobs) : list Z :=
+  match a with
+  | AReq r =>
+      match c08_route r with
+      | None => []
+      | Some (full, tf, fr, mp, page) =>
+          let sess := sess_of w (q_browser r) in
+          let uid := aget k_uid sess in
+          let req_ok := negb (full && ahas k_halfauth sess) && negb (tf && negb (ahas k_twofactor sess)) in
+          let load :=
+            if bempty uid then LNone else
+            match o_faults O with
+            | (0%nat, EGeneric) :: _ => LErr
+            | (0%nat, ENotFound) :: _ => LNone
+            | _ => match user_of w uid with Some _ => LOk | None => LNone end
+            end in
+          let ran := beqb (io_page i) page in
+          (* a fault injected where no user load happens hits the renderer of the refusal instead:
+             an error outcome the property does not describe *)
+          let fault_elsewhere := match o_faults O with [] => false | _ => bempty uid || negb req_ok end in
+          if fault_elsewhere then (if ran then [1081] else [])
+          else if req_ok && loadres_eqb load LOk then (if ran then [] else [108])
+          else
+            (if ran then [1081] else []) ++
+            (if req_ok && loadres_eqb load LErr then (if io_status i =? 500 then [] else [1082])
+             else
+               let p := if mp && negb (bempty (c_mount cfg)) then c_mount cfg ++ q_path r else q_path r in
+               let full_path := if bempty (q_rawquery r) then p else p ++ "?"%byte :: q_rawquery r in
+               let target := c_mount cfg ++ bs "/login?redir=" ++ query_escape full_path in
+               match fr with
+               | RespNotFound => if io_status i =? 404 then [] else [1083]
+               | RespUnauthorized => if io_status i =? 401 then [] else [1083]
+               | RespRedirect =>
+                   if c_api cfg then
+                     (if (io_status i =? 307) &&
+                         match dlookup (bs "location") (io_data i) with Some (DStr l) => beqb l target | _ => false end
+                      then [] else [1084])
+                   else (if (io_status i =? 302) && beqb (io_loc i) target then [] else [1084])
+               end)
       end
   | _ => []
   end.
